@@ -349,4 +349,32 @@ def _id_witness(case, vals, gvals):
 
 interpolate_defaults.witness = _id_witness
 
-CONTRACTS = [extract_default, needs_quoting, set_default_doc, sdd_idempotent, interpolate_defaults]
+
+
+def _rdp_case(name, extra, emit_prop):
+    d = {"doc": "str"}
+    d.update(extra)
+    return Case(name, {"param": ("tuple", ["str", ("dict", d)]), "emit_default_prop": emit_prop})
+
+
+remove_default_from_param = Contract(
+    "doctrans.defaults_utils:_remove_default_from_param",
+    properties=["C01", "C17"],
+    note="extract_default by contract (one outcome per type of the extracted default; ed_doc = what removal returns, proved as E7 / E7n)",
+    cases=[_rdp_case("keep-prop", {}, True), _rdp_case("keep-prop,typ", {"typ": "str"}, True), _rdp_case("keep-prop,had-default", {"default": "int"}, True),
+           _rdp_case("drop-prop", {}, False), _rdp_case("drop-prop,had-default", {"default": "int"}, False)],
+    use_contract_for=["doctrans.defaults_utils:extract_default"],
+    ghosts={"doc, default = extract_default(": [("g_doc", "doc"), ("g_default", "default")]},
+    ensures=[
+        Clause("RD-same", "result[0] == param[0] and result[1] is param[1]", note="same name, same dict object"),
+        Clause("RD-doc", "result[1]['doc'] == ed_doc(old_param[1]['doc'])", note="the prose is the original prose with the default sentence removed"),
+        Clause("RD-default", "('default' in result[1]) == (g_default is not None) and (g_default is None or result[1]['default'] == g_default)",
+               when=["keep-prop", "keep-prop,typ", "keep-prop,had-default"],
+               note="C17: the default property is exactly what the sentence announced (a stale one is replaced, none is invented)"),
+        Clause("RD-dropped", "('default' in result[1]) == False", when=["drop-prop", "drop-prop,had-default"], note="emit_default_prop=False: no default property"),
+        Clause("RD-typ", "('typ' in result[1]) == ('typ' in old_param[1]) and (('typ' in result[1]) == False or result[1]['typ'] == old_param[1]['typ'])", note="frame: the type is untouched"),
+    ],
+    canaries=["g_default is None", "'default' in result[1]"],
+)
+
+CONTRACTS = [extract_default, needs_quoting, set_default_doc, sdd_idempotent, interpolate_defaults, remove_default_from_param]
